@@ -11,18 +11,27 @@ Proved for ALL inputs / ALL sequences of approved steps:
   limits of the replication setting xyz (at most x+1 data centers, at most y+1 racks in any data center,
   at most z+1 replicas in any rack), by induction along any sequence of approved copies
   (`approved_copies_within_limits`);
-* `fix_copy_has_free_slot`: a copy planned by volume.fix.replication goes to a server whose
-  MaxVolumeCount − VolumeCount is positive in the snapshot.
+* `move_preserves_placement_partial`, `approved_moves_preserve_placement`: for every replication setting
+  outside z = 0 ∧ x ≥ 1 ∧ y ≥ 2 a move approved by `isGoodMove` (any sequence of them) keeps a placement that
+  satisfies xyz satisfying it; `mixed_shape_never_moved`: for z ≥ 1 ∧ x+y ≥ 1 this holds because no replica of a
+  satisfied placement is ever approved to move; `move_breaks_outside_class`: the class is exact (all 256 bytes);
+* `fix_copy_has_free_slot`, `fix_target_has_capacity`: a copy planned by volume.fix.replication goes to a server
+  whose MaxVolumeCount − VolumeCount is positive in the snapshot;
+* `balance_target_guard`, `balance_target_has_capacity_partial`: what the selected-volume-count guard of
+  volume.balance guarantees (selected+1 ≤ MaxVolumeCount of the target when selected ≤ max overall);
+* `bridge_*`: the guard texts the model was written from (regenerated from the source on every run).
 FALSE of the code (negations proved on witnesses; the corpus holds the same inputs as open findings):
 * `move_preserves_placement` — `isGoodMove` turns a satisfied 120 placement (3 racks + 1 dc) into 2 + 2
-  (`move_breaks_120_witness`); for the shapes the judge checks on every run see Spec.satisfies;
+  (`move_breaks_120_witness`, every setting with z = 0, x ≥ 1, y ≥ 2: `move_breaks_outside_class`);
 * `target_has_capacity` — the balance guard approves a move onto a full server (`balance_full_target_witness`),
   the evacuate guard has no capacity term at all (`evac_full_target_witness`).
 -/
 import SwV.Model.C15
 import SwV.Spec.C15
+import SwV.Lemmas.C15
+import SwV.Gen.C15
 namespace SwV.Props.C15
-open SwV.Model.C15 SwV.Spec.C15
+open SwV.Model.C15 SwV.Spec.C15 SwV.Lemmas.C15
 
 /-! ### no two replicas on one server -/
 
@@ -98,53 +107,7 @@ theorem repair_never_colocates (rp : RP) (reps : List Loc) (loc : Loc)
   have hany : reps.any (· == loc) = true := List.any_eq_true.mpr ⟨loc, hmem, by simp⟩
   simp [satisfyRP, hany] at h
 
-/-! ### counting lemmas -/
-
-theorem mem_distinct {α : Type} [DecidableEq α] (a : α) (l : List α) : a ∈ distinct l ↔ a ∈ l := by
-  induction l with
-  | nil => simp [distinct]
-  | cons b rest ih =>
-    unfold distinct
-    by_cases hb : b ∈ distinct rest
-    · simp only [hb, if_true]
-      constructor
-      · intro h; exact List.mem_cons_of_mem _ (ih.mp h)
-      · intro h
-        rcases List.mem_cons.mp h with h | h
-        · exact h ▸ hb
-        · exact ih.mpr h
-    · simp only [hb, if_false, List.mem_cons, ih]
-
-theorem distinct_cons_length {α : Type} [DecidableEq α] (a : α) (l : List α) :
-    (distinct (a :: l)).length = if a ∈ l then (distinct l).length else (distinct l).length + 1 := by
-  show (if a ∈ distinct l then distinct l else a :: distinct l).length = _
-  by_cases h : a ∈ l
-  · simp [h, (mem_distinct a l).mpr h]
-  · have : a ∉ distinct l := fun e => h ((mem_distinct a l).mp e)
-    simp [h, this]
-
-theorem cnt_cons {α : Type} [DecidableEq α] (a b : α) (l : List α) :
-    cnt a (b :: l) = cnt a l + (if b = a then 1 else 0) := by
-  unfold cnt
-  by_cases h : b = a <;> simp [List.filter_cons, h]
-
-theorem cnt_pos_of_mem {α : Type} [DecidableEq α] (a : α) (l : List α) (h : a ∈ l) : cnt a l > 0 := by
-  induction l with
-  | nil => simp at h
-  | cons b rest ih =>
-    rw [cnt_cons]
-    rcases List.mem_cons.mp h with h | h
-    · simp [h]
-    · have := ih h; omega
-
-theorem cnt_zero_of_not_mem {α : Type} [DecidableEq α] (a : α) (l : List α) (h : a ∉ l) : cnt a l = 0 := by
-  induction l with
-  | nil => rfl
-  | cons b rest ih =>
-    rw [cnt_cons]
-    have hb : ¬ b = a := fun e => h (by simp [e])
-    have := ih (fun e => h (List.mem_cons_of_mem _ e))
-    simp [hb, this]
+/-! ### counting lemmas: `mem_distinct`, `distinct_cons_length`, `cnt_cons`, `cnt_pos_of_mem`, `cnt_zero_of_not_mem` live in Lemmas/C15.lean -/
 
 /-! ### a repair copy stays within the limits of the replication setting -/
 
@@ -313,5 +276,200 @@ def wEvac : Topo :=
 theorem evac_full_target_witness :
     (wEvac.head?.map fun this => evacOk wEvac this 0 ⟨1, 10, 0, false, 0, 1000⟩ (some 2)) = some true ∧
     freeAt wEvac 2 0 = 0 := by decide
+
+/-! ### a satisfied placement stays satisfied (`move_preserves_placement`)
+
+FALSE in general (`move_breaks_120_witness`).  The exact class: `isGoodMove` checks three numbers on the
+replica list after the move — x+1 data centers, x+y+1 racks, z+1 replicas in every rack.  They pin the
+shape x/y/z down iff NOT (z = 0 ∧ x ≥ 1 ∧ y ≥ 2):
+* z = 0 and (x = 0 or y ≤ 1): the y extra racks cannot be split over two data centers;
+* x = y = 0: one rack;
+* z ≥ 1 and x+y ≥ 1: `isGoodMove` wants z+1 replicas in EVERY rack, (x+y+1)(z+1) in total, a satisfied
+  placement has x+y+z+1 — no replica of a satisfied placement is ever approved (`mixed_shape_never_moved`),
+  so the balancer leaves such volumes where they are;
+* z = 0, x ≥ 1, y ≥ 2: broken for every such setting (`move_breaks_outside_class`). -/
+
+/-- the replication settings for which an approved move keeps a satisfied placement satisfied -/
+def preservingClass (rp : RP) : Prop := rp.x = 0 ∨ rp.y ≤ 1 ∨ rp.z ≥ 1
+instance (rp : RP) : Decidable (preservingClass rp) := by unfold preservingClass; exact inferInstance
+
+theorem mixed_shape_never_moved (rp : RP) (reps : List Loc) (src dst : Loc) (hz : rp.z ≥ 1) (hxy : rp.x + rp.y ≥ 1)
+    (hi : idsInj reps) (hs : satisfies rp reps = true) (hsrc : src ∈ reps) : isGoodMove rp reps src dst = false :=
+  mixed_never_moves rp reps src dst hz hxy hi hs hsrc
+
+example : satisfies ⟨0, 1, 1⟩ [⟨1, 1, 1⟩, ⟨1, 1, 2⟩, ⟨1, 2, 3⟩] = true ∧ idsInj [⟨1, 1, 1⟩, ⟨1, 1, 2⟩, ⟨1, 2, 3⟩] := by decide
+
+/-- `move_preserves_placement_partial`: for every replication setting outside z = 0 ∧ x ≥ 1 ∧ y ≥ 2, a move
+    approved by `isGoodMove` turns a placement satisfying xyz into one satisfying xyz
+    (replicas = the list after `adjustAfterMove`; server ids identify servers). -/
+theorem move_preserves_placement_partial (rp : RP) (reps : List Loc) (src dst : Loc)
+    (hc : preservingClass rp) (hi : idsInj reps) (hs : satisfies rp reps = true)
+    (hg : isGoodMove rp reps src dst = true) : satisfies rp (adjustReps reps src dst) = true := by
+  by_cases hsrc : src ∈ reps
+  · obtain ⟨hn, _⟩ := (satisfies_iff rp reps).mp hs
+    by_cases hmix : rp.z ≥ 1 ∧ rp.x + rp.y ≥ 1
+    · rw [mixed_never_moves rp reps src dst hmix.1 hmix.2 hi hs hsrc] at hg
+      exact absurd hg (by simp)
+    · have hgc : goodClass rp := by
+        unfold goodClass; unfold preservingClass at hc; omega
+      obtain ⟨d, r, sh⟩ := good_imp_shape rp (afterOf reps src dst) (by simp [afterOf])
+        (isGoodMove_good rp reps src dst hg) hgc
+      have hp := adjust_perm reps src dst hn hsrc hi
+      exact (satisfies_iff rp _).mpr
+        ⟨adjust_nodup reps src dst hn (goodMove_target_new rp reps src dst hg), d, r, shape_perm hp.symm sh⟩
+  · rw [adjust_of_not_mem reps src dst hsrc]; exact hs
+
+example : preservingClass ⟨1, 1, 0⟩ ∧ idsInj [⟨1, 1, 1⟩, ⟨1, 2, 2⟩, ⟨2, 1, 3⟩] ∧
+    satisfies ⟨1, 1, 0⟩ [⟨1, 1, 1⟩, ⟨1, 2, 2⟩, ⟨2, 1, 3⟩] = true ∧
+    isGoodMove ⟨1, 1, 0⟩ [⟨1, 1, 1⟩, ⟨1, 2, 2⟩, ⟨2, 1, 3⟩] ⟨1, 2, 2⟩ ⟨2, 2, 4⟩ = true := by decide
+
+/-- … along any sequence of approved moves (composed with `approved_moves_never_colocate`): the servers of
+    the cluster (`reps` and all targets) have unique ids -/
+theorem approved_moves_preserve_placement (rp : RP) (hc : preservingClass rp) (steps : List (Loc × Loc)) :
+    ∀ (reps out : List Loc), idsInj (reps ++ steps.map (·.2)) → satisfies rp reps = true →
+      runMoves rp reps steps = some out → satisfies rp out = true ∧ out.Nodup := by
+  induction steps with
+  | nil =>
+    intro reps out _ hs h
+    simp [runMoves] at h
+    exact h ▸ ⟨hs, ((satisfies_iff rp reps).mp hs).1⟩
+  | cons st rest ih =>
+    intro reps out hi hs h
+    obtain ⟨s, d⟩ := st
+    unfold runMoves at h
+    by_cases hg : isGoodMove rp reps s d = true
+    · simp only [hg, if_true] at h
+      have hi0 : idsInj reps := idsInj_subset (fun a ha => List.mem_append_left _ ha) hi
+      refine ih _ _ (idsInj_subset ?_ hi) (move_preserves_placement_partial rp reps s d hc hi0 hs hg) h
+      intro a ha
+      rcases List.mem_append.mp ha with ha | ha
+      · rcases mem_adjust _ _ _ _ ha with h' | h'
+        · exact List.mem_append_left _ h'
+        · exact List.mem_append_right _ (by simp [h'])
+      · exact List.mem_append_right _ (by simp at ha ⊢; exact Or.inr ha)
+    · simp [hg] at h
+
+example : runMoves ⟨1, 1, 0⟩ [⟨1, 1, 1⟩, ⟨1, 2, 2⟩, ⟨2, 1, 3⟩] [(⟨1, 2, 2⟩, ⟨2, 2, 4⟩), (⟨1, 1, 1⟩, ⟨3, 1, 5⟩)]
+    = some [⟨3, 1, 5⟩, ⟨2, 2, 4⟩, ⟨2, 1, 3⟩] := by decide
+
+/-- a placement of shape xyz (z = 0) and the move that `isGoodMove` approves although it splits the y extra racks:
+    dc 1 racks 1..y+1, dcs 2..x+1 one replica each; dc1/rack y+1 → dc2/rack 2 -/
+def breakWitness (rp : RP) : List Loc × Loc × Loc :=
+  ((List.range (rp.y + 1)).map (fun i => (⟨1, i + 1, i + 1⟩ : Loc)) ++ (List.range rp.x).map (fun j => (⟨j + 2, 1, 100 + j⟩ : Loc)),
+   ⟨1, rp.y + 1, rp.y + 1⟩, ⟨2, 2, 200⟩)
+
+/-- the class is exact: for EVERY replication byte outside it the statement fails -/
+theorem move_breaks_outside_class : ∀ b : Fin 256, ¬ preservingClass (rpOfByte b.val) →
+    let rp := rpOfByte b.val
+    let w := breakWitness rp
+    idsInj w.1 ∧ satisfies rp w.1 = true ∧ isGoodMove rp w.1 w.2.1 w.2.2 = true ∧
+      satisfies rp (adjustReps w.1 w.2.1 w.2.2) = false := by decide +kernel
+
+example : ¬ preservingClass (rpOfByte 120) ∧ ¬ preservingClass (rpOfByte 220) ∧ preservingClass (rpOfByte 110) := by decide
+
+/-! ### capacity (`target_has_capacity`)
+
+FALSE for volume.balance and volumeServer.evacuate (`balance_full_target_witness`, `evac_full_target_witness`).
+What the guards do guarantee: -/
+
+/-- volume.fix.replication (`target_has_capacity_partial`): a planned copy goes to a server whose
+    MaxVolumeCount − VolumeCount for the disk type of the copied replica is positive in the snapshot, i.e. the
+    judge class fix/target-without-free-slot cannot fire.  (Nothing is reserved between two copies of one run:
+    fix/target-overfilled-by-plan is an open finding.) -/
+theorem fix_target_has_capacity (t : Topo) (vid s d : Nat) (h : fixTokOk t (.copy vid s d) = true) :
+    ∃ src, pickSource (replicasOf t vid) = some src ∧ freeAt t d src.dt > 0 := by
+  obtain ⟨src, dn, h1, h2, h3⟩ := fix_copy_has_free_slot t vid s d h
+  exact ⟨src, h1, by simpa [freeAt, h2] using h3⟩
+
+/-- volume.balance: EXACTLY what the guard of `balanceSelectedVolume` says about the target: with one more
+    SELECTED volume its ratio selected/MaxVolumeCount stays within the ideal ratio (all selected)/(all max).
+    VolumeCount is not consulted: volumes outside the selection (other collection, the other of the
+    writable/read-only phases) are invisible to it. -/
+theorem balance_target_guard (p : Phase) (vid s d : Nat) (h : p.stepOk vid s d = true) :
+    ∃ dst, p.nodes.find? (·.loc.id == d) = some dst ∧ (dst.sel.length + 1) * p.m ≤ p.s * dst.cap ∧ p.m > 0 := by
+  unfold Phase.stepOk at h
+  cases hs : p.nodes.find? (·.loc.id == s) with
+  | none => simp [hs] at h
+  | some src =>
+    cases hd : p.nodes.find? (·.loc.id == d) with
+    | none => simp [hs, hd] at h
+    | some dst =>
+      cases hv : src.sel.find? (·.vid == vid) with
+      | none => simp [hs, hd, hv] at h
+      | some v =>
+        simp only [hs, hd, hv, Bool.and_eq_true] at h
+        obtain ⟨⟨⟨⟨⟨⟨_, hfull⟩, _⟩, hnext⟩, _⟩, _⟩, _⟩ := h
+        have hfull' : src.sel.length * p.m > p.s * src.cap := by simpa [Phase.fullOk] using hfull
+        have hnext' : (dst.sel.length + 1) * p.m ≤ p.s * dst.cap := by simpa [Phase.nextOk] using hnext
+        refine ⟨dst, rfl, hnext', ?_⟩
+        cases hm : p.m with
+        | zero => rw [hm] at hfull'; simp at hfull'
+        | succ k => omega
+
+/-- … hence, as long as the selected volumes of the phase do not outnumber the MaxVolumeCounts, the target's
+    SELECTED volumes (planned arrivals included) plus the moved one fit into its MaxVolumeCount.  This is a
+    free slot only on servers all of whose volumes of the disk type are selected. -/
+theorem balance_target_has_capacity_partial (p : Phase) (vid s d : Nat) (h : p.stepOk vid s d = true) (hsm : p.s ≤ p.m) :
+    ∃ dst, p.nodes.find? (·.loc.id == d) = some dst ∧ dst.sel.length + 1 ≤ dst.cap := by
+  obtain ⟨dst, h1, h2, h3⟩ := balance_target_guard p vid s d h
+  refine ⟨dst, h1, ?_⟩
+  have h4 : p.s * dst.cap ≤ p.m * dst.cap := Nat.mul_le_mul_right _ hsm
+  have h5 : (dst.sel.length + 1) * p.m ≤ dst.cap * p.m := by rw [Nat.mul_comm dst.cap]; omega
+  exact Nat.le_of_mul_le_mul_right h5 h3
+
+example : (mkPhase ⟨1, some 0, none, 1000⟩ false wFull (initReps wFull)).stepOk 11 4 2 = true ∧
+    (mkPhase ⟨1, some 0, none, 1000⟩ false wFull (initReps wFull)).s ≤ (mkPhase ⟨1, some 0, none, 1000⟩ false wFull (initReps wFull)).m := by decide
+
+example : fixTokOk [⟨⟨1, 1, 1⟩, [⟨0, 2, [⟨1, 10, 1, false, 0, 1000⟩]⟩]⟩, ⟨⟨1, 1, 2⟩, [⟨0, 2, []⟩]⟩] (.copy 1 1 2) = true := by decide
+
+/-! ### bridges: the guard texts and sources the model was written from (T1 tie)
+
+`SwV.Gen.C15` is regenerated from the working tree on every run; an edit to one of these guards or functions
+breaks the named obligation below. -/
+
+/-! `isGoodMove` ↔ Model.isGoodMove: target already holds ⇒ false; replicas on the source server are skipped;
+    `dcs.length == rp.x + 1`, `racks.length == rp.y + rp.x + 1`, every rack `== rp.z + 1`
+    (the three counts of `GoodAfter`, the hypothesis of `move_preserves_placement_partial`) -/
+theorem bridge_good_target_holds : SwV.Gen.C15.good_target_holds = "replica.location.dataNode.Id == targetNode.info.Id && replica.location.rack == targetNode.rack && replica.location.dc == targetNode.dc" := rfl
+theorem bridge_good_skip_source : SwV.Gen.C15.good_skip_source = "replica.location.dataNode.Id != sourceNode.info.Id" := by decide
+theorem bridge_good_dcs : SwV.Gen.C15.good_dcs = "len(dcs) != placement.DiffDataCenterCount+1" := by decide
+theorem bridge_good_racks : SwV.Gen.C15.good_racks = "len(racks) != placement.DiffRackCount+placement.DiffDataCenterCount+1" := by decide
+theorem bridge_good_same_rack : SwV.Gen.C15.good_same_rack = "sameRackCount != placement.SameRackCount+1" := by decide
+
+/-! `maybeMoveOneVolume` ↔ Model.movable: `v.rp == 0 || isGoodMove …` -/
+theorem bridge_maybe_replicated : SwV.Gen.C15.maybe_replicated = "candidateVolume.ReplicaPlacement > 0" := by decide
+theorem bridge_maybe_good : SwV.Gen.C15.maybe_good = "!isGoodMove(replicaPlacement, volumeReplicas[candidateVolume.Id], fullNode, emptyNode)" := by decide
+
+/-! `satisfyReplicaPlacement` ↔ Model.satisfyRP (`< rp.x + 1`, primary dc, `< rp.y + 1`, primary rack, `< rp.z + 1`) -/
+theorem bridge_sat_dcs : SwV.Gen.C15.sat_dcs = "len(existingDataCenters) < replicaPlacement.DiffDataCenterCount+1" := by decide
+theorem bridge_sat_primary_dc : SwV.Gen.C15.sat_primary_dc = "!isAmong(possibleLocation.DataCenter(), primaryDataCenters)" := by decide
+theorem bridge_sat_racks : SwV.Gen.C15.sat_racks = "len(primaryDcRacks) < replicaPlacement.DiffRackCount+1" := by decide
+theorem bridge_sat_primary_rack : SwV.Gen.C15.sat_primary_rack = "!isAmong(possibleLocation.Rack(), primaryRacks)" := by decide
+theorem bridge_sat_same_rack : SwV.Gen.C15.sat_same_rack = "sameRackCount < replicaPlacement.SameRackCount+1" := by decide
+
+/-! `balanceSelectedVolume` ↔ Phase.fullOk / Phase.nextOk / mkPhase (`cap > 0`), the guard of
+    `balance_target_guard`: selected/max of the full node above, (selected+1)/max of the target within the ideal ratio -/
+theorem bridge_bal_with_capacity : SwV.Gen.C15.bal_with_capacity = "capacity > 0" := by decide
+theorem bridge_bal_ideal : SwV.Gen.C15.bal_ideal = "idealVolumeRatio := divide(selectedVolumeCount, volumeMaxCount)" := by decide
+theorem bridge_bal_guard : SwV.Gen.C15.bal_guard = "!(fullNode.localVolumeRatio(capacityFunc) > idealVolumeRatio && emptyNode.localVolumeNextRatio(capacityFunc) <= idealVolumeRatio)" := rfl
+theorem bridge_ratio_num : SwV.Gen.C15.ratio_num = "len(n.selectedVolumes)" := by decide
+theorem bridge_next_ratio_num : SwV.Gen.C15.next_ratio_num = "len(n.selectedVolumes) + 1" := by decide
+
+/-! `fixOneUnderReplicatedVolume` ↔ Model.fixCand: `capFree n dt > 0 && satisfyRP …` (hypothesis of `fix_target_has_capacity`) -/
+theorem bridge_fix_capacity_fn : SwV.Gen.C15.fix_capacity_fn = "fn := capacityByFreeVolumeCount(types.ToDiskType(replica.info.DiskType))" := by decide
+theorem bridge_fix_guard : SwV.Gen.C15.fix_guard = "fn(dst.dataNode) > 0 && satisfyReplicaPlacement(replicaPlacement, replicas, dst)" := by decide
+
+/-! source pins of the functions the model mirrors -/
+theorem bridge_src_isGoodMove : SwV.Gen.C15.src_isGoodMove = "b293e81fcbacab31" := by decide
+theorem bridge_src_adjustAfterMove : SwV.Gen.C15.src_adjustAfterMove = "a4e9053acd0917ab" := by decide
+theorem bridge_src_maybeMoveOneVolume : SwV.Gen.C15.src_maybeMoveOneVolume = "31e2284f2ebd2488" := by decide
+theorem bridge_src_attemptToMoveOneVolume : SwV.Gen.C15.src_attemptToMoveOneVolume = "6f22e7b0284b8a03" := by decide
+theorem bridge_src_balanceSelectedVolume : SwV.Gen.C15.src_balanceSelectedVolume = "d433e7f9deafd21d" := by decide
+theorem bridge_src_satisfyReplicaPlacement : SwV.Gen.C15.src_satisfyReplicaPlacement = "61104f833c486dc4" := by decide
+theorem bridge_src_keepDataNodesSorted : SwV.Gen.C15.src_keepDataNodesSorted = "7b47402d03439a95" := by decide
+theorem bridge_src_capacityByFreeVolumeCount : SwV.Gen.C15.src_capacityByFreeVolumeCount = "2ac6f604aa520ffe" := by decide
+theorem bridge_src_capacityByMaxVolumeCount : SwV.Gen.C15.src_capacityByMaxVolumeCount = "9cd71831627f4319" := by decide
+theorem bridge_src_moveAwayOneNormalVolume : SwV.Gen.C15.src_moveAwayOneNormalVolume = "c6e9e234a455ebd9" := by decide
+theorem bridge_src_fixOneUnderReplicatedVolume : SwV.Gen.C15.src_fixOneUnderReplicatedVolume = "28d84498e088be21" := by decide
 
 end SwV.Props.C15
